@@ -89,7 +89,7 @@ def _int_const(e):
     return None
 
 
-def nonempty_test(fnode, e):
+def nonempty_test(fnode, e, bare=False):
     """(chain text, polarity): e <=> (the container `chain` is non-empty) when polarity
     is True, <=> (it is empty) when False; None if e is no such test.
     Spellings: `t`, `len(t)`, `len(t) > 0`, `len(t) != 0`, `len(t) >= 1`, `0 < len(t)`,
@@ -135,27 +135,40 @@ def nonempty_test(fnode, e):
                 return container(a), pol == isinstance(op, ast.NotEq)
         return None
     c = length(e) or container(e)
-    if c is not None and "." in c:
+    # (a bare name is only read as a container when the caller says that it is one: a parameter that receives a table)
+    if c is not None and ("." in c or bare):
         return c, pol
     return None
 
 
-def known_empty_at(cfg, fnode, nid, chain_text):
+def known_empty_at(cfg, fnode, nid, chain_text, bare=False):
     """Does a dominating branch outcome establish that the container is empty at node nid?"""
     for e, pol, _ in cfg.guards(nid):
         if isinstance(e, (ast.For, ast.AsyncFor)):
             continue
-        t = nonempty_test(fnode, e)
+        t = nonempty_test(fnode, e, bare)
         if t is not None and t[0] == chain_text and t[1] != pol:
             return True
     return False
 
 
-def known_nonempty_at(cfg, fnode, nid, chain_text):
+def emptiness_outcomes(cfg, fnode, chain_text, bare=False):
+    """T/F pseudo-nodes of the CFG on which the container is known to be empty"""
+    out = []
+    for n in cfg.nodes:
+        if n.kind not in ("T", "F") or isinstance(n.ast, (ast.For, ast.AsyncFor)):
+            continue
+        t = nonempty_test(fnode, n.ast, bare)
+        if t is not None and t[0] == chain_text and t[1] != (n.kind == "T"):
+            out.append(n.id)
+    return out
+
+
+def known_nonempty_at(cfg, fnode, nid, chain_text, bare=False):
     for e, pol, _ in cfg.guards(nid):
         if isinstance(e, (ast.For, ast.AsyncFor)):
             continue
-        t = nonempty_test(fnode, e)
+        t = nonempty_test(fnode, e, bare)
         if t is not None and t[0] == chain_text and t[1] == pol:
             return True
     return False
@@ -731,6 +744,9 @@ class Flow:
         elif isinstance(p, (ast.Assign, ast.AnnAssign)) and p.value is e:
             for t in (p.targets if isinstance(p, ast.Assign) else [p.target]):
                 self._bind(fi, p, t, wrap, proj, depth + 1)
+        elif isinstance(p, ast.Yield) and p.value is e:
+            # handed to whoever iterates over the generator
+            self._use("yielded", fi, p, wrap, proj)
         elif isinstance(p, ast.Starred):
             return
 
@@ -826,6 +842,108 @@ def removal_sites(prog, fi, chain_text):
             if k is not None:
                 out.append((n, k))
     return out
+
+
+def draining_generator(prog, g, ref):
+    """(kind, ((wrap, proj), ...)) if the generator function g hands out the entries of the container `ref` (a parameter
+    name, or a `self.<field>` chain) by *taking them out*, until the container is empty: kind 'pop' / 'popitem' as in
+    removal_sites, `wrap` the index path from the yielded value down to (the part of) what the removal returned,
+    `proj` the index path of that part inside what the removal returned (several pairs when the entry is handed out
+    re-packed).  None if g is anything else.
+
+    Decided on the generator's CFG and value flow, not on its text:
+      * g is a generator without `yield from`, and never rebinds `ref`;
+      * every removal from `ref` sits in a cycle and under a dominating outcome that says `ref` is non-empty (any
+        spelling of the test), its value flows into a `yield`, and from the removal neither the next removal nor
+        the end of the generator is reached without passing such a yield (nothing is taken out and kept back);
+      * nothing else is yielded (every item the consumer sees is an entry that has left the table), and all
+        yields hand the entry out in one and the same layout;
+      * the generator can only end -- from its start and after every removal -- through an outcome that says `ref`
+        is empty: when the consumer's loop is exhausted, the table was drained.
+    The generator is lazy: one entry leaves the table per round of the consumer's loop, the table is looked at
+    afresh in between -- exactly the `while t: v = t.pop(..)` loop written in place."""
+    if not _is_generator(g) or isinstance(g.node, ast.Lambda):
+        return None
+    bare = "." not in ref
+    if bare and writes_to_name(g.node, ref):
+        return None
+    if not bare and any(k in ("assign", "del") for k, n in stores_to(g.node, ref, nested=False)):
+        return None
+    cfg = cfg_of(g)
+    yields, rem = [], []
+    for n in walk_no_nested(g.node):
+        if isinstance(n, ast.YieldFrom):
+            return None
+        if isinstance(n, ast.Yield):
+            yields.append(n)
+        if isinstance(n, ast.Call) and isinstance(n.func, ast.Attribute) and n.func.attr in ("pop", "popitem") and chain_of(g.node, n.func.value) == ref:
+            rem.append(n)
+    if not yields or not rem:
+        return None
+    empties = emptiness_outcomes(cfg, g.node, ref, bare=True)
+    if not empties or not cfg.must_pass(cfg.entry, empties):
+        return None
+    layouts = set()
+    handed = set()
+    for call in rem:
+        pn = cfg.loc1(call)
+        if pn not in cfg.reach({pn}, skip_labels=("exc",)) or not known_nonempty_at(cfg, g.node, pn, ref, bare=True):
+            return None
+        ys = [u for u in Flow(prog, follow_returns=False).from_expr(g, call) if u.kind == "yielded" and u.fi is g and u.site is None]
+        if not ys:
+            return None
+        ynodes = {cfg.loc1(u.node) for u in ys}
+        if pn not in ynodes:
+            r = cfg.reach({pn}, avoid=ynodes, skip_labels=("exc",))
+            if pn in r or cfg.exit in r:
+                return None
+        if not cfg.must_pass(pn, empties):
+            return None
+        per_yield = {}
+        for u in ys:
+            per_yield.setdefault(id(u.node), set()).add((u.wrap, u.proj))
+            handed.add(id(u.node))
+        for lay in per_yield.values():
+            layouts.add((call.func.attr, tuple(sorted(lay))))
+    # (one layout for all yields and removals: `p, s = t.pop(k); yield s, p` hands out two parts of the entry, each
+    # at its place -- the same places at every yield, or the consumer's uses could not be attributed)
+    if len(layouts) != 1 or any(id(y) not in handed for y in yields):
+        return None
+    return layouts.pop()
+
+
+def draining_iter(prog, fi, it, chain_text):
+    """(kind, ((wrap, proj), ...)) if iterating over the expression `it` in fi takes the entries of the table `chain_text`
+    out one by one through a draining generator of the program (see draining_generator): the call may be wrapped in
+    list()/tuple()/iter()/..., bound to a single-assignment local first; the table is handed over as an argument
+    (positional or keyword, possibly through a local alias) or -- for a method called on self -- is the very field
+    of the same object."""
+    for _ in range(4):
+        it = resolve_local(fi.node, it)
+        if isinstance(it, ast.Call) and isinstance(it.func, ast.Name) and it.func.id in TRANSPARENT_ITER_FUNCS and len(it.args) == 1 and not it.keywords:
+            it = it.args[0]
+        else:
+            break
+    if not isinstance(it, ast.Call):
+        return None
+    target, implicit = resolve_callee(prog, fi, it)
+    if target is None:
+        return None
+    args = [a for a in list(it.args) + [k.value for k in it.keywords] if chain_of(fi.node, a) == chain_text]
+    if args:
+        if len(args) != 1:
+            return None
+        pname = param_for_arg(target, implicit, it, args[0])
+        return draining_generator(prog, target, pname) if pname is not None else None
+    if implicit == 1 and isinstance(it.func, ast.Attribute) and chain(it.func.value) == "self" and chain_text.startswith("self.") and target.cls is not None \
+            and params_all(target)[:1] == ["self"]:
+        return draining_generator(prog, target, chain_text)
+    return None
+
+
+def params_all(fi):
+    a = fi.node.args
+    return [x.arg for x in a.posonlyargs + a.args]
 
 
 # ---------------------------------------------------------------------------
